@@ -1,4 +1,3 @@
 package main
 
 func c21() {}
-func c37() {}
